@@ -132,6 +132,22 @@ prop("C19",
      ["the actual byte ranges", "minimality of the window"],
      COMMON_ASSUMPTIONS)
 
+prop("C07",
+     ["DTA", "IS1", "NK1", "BL4", "BL2", "BL5", "WT1", "UC1", "UD1"],
+     "Places where writer and reader must agree on a table, threshold or layout: decision-table analysis of the integer type thresholds "
+     "(every cell of the partition induced by the constants), isinstance dispatch order and mapping, exact-integer timestamp fields not routed "
+     "through float64 beyond 2**53 (interval analysis), timestamp layout siblings, injective type tables, length fields, ToC flags, one codec, "
+     "strings decoded per value.",
+     ["equality of arrays and property values", "append-mode sessions", "np.array(list) dtype inference beyond the integer table"],
+     COMMON_ASSUMPTIONS)
+
+prop("C12",
+     ["NK1", "NK2", "TBf", "BL4", "TT1"],
+     "Encoder arithmetic interval analysis (float64 beyond 2**53), scalar/array conversion siblings normalised and compared, fraction "
+     "constants and epochs folded and compared exactly, timestamp layout siblings, absolute time track derived from the relative one.",
+     ["'within one unit' and monotonicity of the float conversion (numerical)", "time_track values"],
+     COMMON_ASSUMPTIONS)
+
 # ---------------------------------------------------------------------------
 # MANIFEST texts
 LEVEL_TEXT = {
@@ -166,7 +182,11 @@ for _pid, _txt in {
     "C19": "Partial claim: byte counts are run-time; decided is that the code has the bounded-window shape (reachability, guarded reads, request-dependent bounds, cache test).",
 }.items():
     LEVEL_TEXT[_pid] = _txt
+LEVEL_TEXT["C07"] = "Partial claim: round-trip equality is not a static target; decided are the tables, thresholds, layouts and exact-integer paths writer and reader must agree on."
+LEVEL_TEXT["C12"] = "Partial claim: the exactness clause is decided by interval analysis of the encoder (float64 cannot hold integers beyond 2**53); sibling and constant checks; numerical clauses are not decided."
 TECHNIQUE = {
+    "C07": "static analysis: decision-table analysis over threshold-induced cells, interval/numeric-kind analysis, table and layout agreement",
+    "C12": "static analysis: interval/numeric-kind analysis of the encoder, sibling expression normalisation, constant folding",
     "C01": "static analysis: dispatch exhaustiveness over the class hierarchy, size/format agreement, endianness dataflow, container discipline",
     "C03": "static analysis: must-pass-through on CFGs, sibling comparison, abstract state reachability, escape analysis of the offset accumulator",
     "C04": "static analysis: loop-carried counter path rule, dependence analysis of window bounds, None-vs-falsy lint on a frozen parameter table",
